@@ -535,8 +535,23 @@ fn c03_case(args: &Args, report: &mut Report, rng: &mut Rng, case: u64) {
     let join = rng.chance(1, 3);
     // keyed join of a stream partitioned by group_by with one partitioned by the two-phase
     // group_by_reduce: equal keys of both inputs must live on the same replica
-    let mixed = join && rng.chance(1, 2);
+    let mixed = join && rng.chance(1, 3);
+    // join with the right input broadcast to every replica of the join block
+    let bcast = join && !mixed && rng.chance(1, 2);
     let split = !join && rng.chance(1, 4);
+    // one case in four: the whole chain is the body of a replay loop (markers and watermarks
+    // must keep reaching every connected replica in every round)
+    let in_loop = !join && !split && rng.chance(1, 4);
+    let rounds = rng.usize(2, 3) as u64;
+    let mut a = a;
+    if in_loop {
+        for c in a.conns.iter_mut() {
+            if !matches!(c, Conn::Shuffle | Conn::GroupBy) {
+                *c = Conn::Shuffle;
+            }
+        }
+        a.n = a.n.min(300);
+    }
     let b = gen_chain(rng, max_n);
     let layout = match rng.below(10) {
         0 => Layout::Local(1),
@@ -572,12 +587,42 @@ fn c03_case(args: &Args, report: &mut Report, rng: &mut Rng, case: u64) {
                 }
                 s
             };
+            if in_loop {
+                let (c, tr3) = (a2.clone(), tr2.clone());
+                chain_source(ctx, da2.clone(), c.parallel_source, batch, true)
+                    .shuffle()
+                    .replay(
+                        rounds as usize,
+                        0i64,
+                        move |s, _| {
+                            let mut s = s.probed(RecProbe::new(100, "loop-entry", &tr3));
+                            for (i, conn) in c.conns.iter().enumerate() {
+                                s = apply_conn(s, *conn).probed(RecProbe::new(101 + i as u32, "conn", &tr3));
+                            }
+                            s.drop_timestamps()
+                        },
+                        |d: &mut i64, r: Rec| *d += r.v,
+                        |a: &mut i64, d: i64| *a += d,
+                        |_| true,
+                    )
+                    .for_each(|_| {});
+                return;
+            }
             let sa = build(&a2, da2.clone(), 100);
             if mixed {
                 let sb = build(&b2, db2.clone(), 200);
                 let ka = sa.group_by(|r: &Rec| r.k).unkey().probed(RecProbe::<(u32, Rec)>::new(310, "mixed-left", &tr2)).to_keyed();
                 let kb = sb.group_by_reduce(|r: &Rec| r.k, |_a, _b| {}).unkey().probed(RecProbe::<(u32, Rec)>::new(311, "mixed-right", &tr2)).to_keyed();
                 ka.join(kb).unkey().for_each(|_| {});
+            } else if bcast {
+                let sb = build(&b2, db2.clone(), 200);
+                sa.join_with(sb, |r: &Rec| r.k, |r: &Rec| r.k)
+                    .ship_broadcast_right()
+                    .local_hash()
+                    .inner()
+                    .map(|(_, (l, _))| l)
+                    .probed(RecProbe::new(320, "broadcast-join", &tr2))
+                    .for_each(|_| {});
             } else if join {
                 let sb = build(&b2, db2.clone(), 200);
                 sa.join(sb, |r: &Rec| r.k, |r: &Rec| r.k).unkey().map(|(_, (l, _))| l).probed(RecProbe::new(300, "join", &tr2)).for_each(|_| {});
@@ -593,7 +638,7 @@ fn c03_case(args: &Args, report: &mut Report, rng: &mut Rng, case: u64) {
         |_, _| (),
     );
     let desc = json!({"engine":"linkmon.routing","case":case,"shard":args.shard,"seed":args.seed,"layout":layout.name(),"batch":format!("{batch:?}"),"policy":pname,
-        "chain_a":format!("{a:?}"),"chain_b": if join {json!(format!("{b:?}"))} else {json!(null)},"join":join,"mixed_partitioning_join":mixed,"split":split});
+        "chain_a":format!("{a:?}"),"chain_b": if join {json!(format!("{b:?}"))} else {json!(null)},"join":join,"mixed_partitioning_join":mixed,"broadcast_join":bcast,"split":split,"inside_replay_loop": if in_loop { json!(rounds) } else { json!(null) }});
     let h = mix(hash_str(&format!("{a:?}{b:?}{join}{split}")), hash_str(&format!("{}{batch:?}", layout.name())));
     if !res.all_ok() {
         let mut d = desc.clone();
@@ -604,10 +649,12 @@ fn c03_case(args: &Args, report: &mut Report, rng: &mut Rng, case: u64) {
     // block of every probed variable, and replicas of every block
     let mut block_of: HashMap<u32, u64> = HashMap::new();
     let mut replicas: HashMap<u64, BTreeSet<C3>> = HashMap::new();
-    for t in traces.take() {
+    let all_traces = traces.take();
+    for t in &all_traces {
         block_of.insert(t.probe, t.ctx.coord.0);
         replicas.entry(t.ctx.coord.0).or_default().insert(t.ctx.coord);
     }
+    let (all_blocks, all_replicas) = (block_of.clone(), replicas.clone());
     let (sent, _recv) = per_link(&res.log);
     let mut errs = Vec::new();
     let mut stats: BTreeMap<&'static str, u64> = BTreeMap::new();
@@ -615,7 +662,7 @@ fn c03_case(args: &Args, report: &mut Report, rng: &mut Rng, case: u64) {
     let mut edges_checked = 0;
     let mut check_chain = |c: &Chain, d: &Arc<Vec<Rec>>, base: u32, errs: &mut Vec<String>, key_home: &mut HashMap<(u64, u32), C3>| -> (u64, u64) {
         let by_hash: HashMap<u64, &Rec> = d.iter().map(|r| (payload_hash(r), r)).collect();
-        let mut mult = 1u64;
+        let mut mult = if in_loop { rounds } else { 1u64 };
         let mut last_block = block_of.get(&base).copied().unwrap_or(u64::MAX);
         for (i, conn) in c.conns.iter().enumerate() {
             let Some(&fb) = block_of.get(&(base + i as u32)) else { break };
@@ -625,6 +672,18 @@ fn c03_case(args: &Args, report: &mut Report, rng: &mut Rng, case: u64) {
                 continue; // replication(Unlimited) on an unlimited block creates a new block anyway; defensive
             }
             check_edge(fb, tb, &EdgeRule { kind: *conn, mult, conserve: true }, &sent, &by_hash, &cons, d.len(), key_home, errs, &mut stats);
+            // the watermarks a producer replica emitted (probe at the end of its block) must
+            // travel, in the same order, on every one of its links of this edge
+            for t in all_traces.iter().filter(|t| t.probe == base + i as u32) {
+                let emitted: Vec<i64> = t.evs.iter().filter(|e| e.kind == crate::probe::K_WM).map(|e| e.ts).collect();
+                for ((from, to), (_, elems, _)) in sent.iter().filter(|((f, to), _)| *f == t.ctx.coord && to.0 .0 == tb && to.1 == fb) {
+                    let on_link: Vec<i64> = elems.iter().filter(|d| d.kind == KIND_WATERMARK).map(|d| d.ts).collect();
+                    *stats.entry("watermark_sequences_compared").or_default() += 1;
+                    if on_link != emitted {
+                        errs.push(format!("edge b{fb}->b{tb}: replica {from:?} emitted {} watermarks but {} travel on its link to {to:?} (first difference at {:?})", emitted.len(), on_link.len(), emitted.iter().zip(on_link.iter()).position(|(a, b)| a != b)));
+                    }
+                }
+            }
             report.seen("edge_cells", format!("{:?} {}->{}", match conn { Conn::Forward(_) => "Forward".to_string(), c => format!("{c:?}") }, replicas.get(&fb).map(|r| r.len()).unwrap_or(0), cons.len()));
             edges_checked += 1;
             if *conn == Conn::Broadcast {
@@ -657,6 +716,19 @@ fn c03_case(args: &Args, report: &mut Report, rng: &mut Rng, case: u64) {
                 }
             }
             *stats.entry("mixed_partitioning_keys_compared").or_default() += compared;
+        }
+    } else if bcast {
+        let (last_b, mult_b) = check_chain(&b, &db, 200, &mut errs, &mut key_home);
+        if let Some(&jb) = all_blocks.get(&320) {
+            let cons = all_replicas.get(&jb).cloned().unwrap_or_default();
+            let ha: HashMap<u64, &Rec> = da.iter().map(|r| (payload_hash(r), r)).collect();
+            let hb: HashMap<u64, &Rec> = db.iter().map(|r| (payload_hash(r), r)).collect();
+            let rep_a = match a.conns.last() { Some(Conn::Forward(r)) => *r, _ => Rep::Unlimited };
+            // the left input is forwarded, the right one must reach every replica of the join block
+            check_edge(last_a, jb, &EdgeRule { kind: Conn::Forward(rep_a), mult: mult_a, conserve: true }, &sent, &ha, &cons, da.len(), &mut key_home, &mut errs, &mut stats);
+            check_edge(last_b, jb, &EdgeRule { kind: Conn::Broadcast, mult: mult_b, conserve: true }, &sent, &hb, &cons, db.len(), &mut key_home, &mut errs, &mut stats);
+            edges_checked += 2;
+            *stats.entry("broadcast_join_checks").or_default() += 1;
         }
     } else if join {
         let (last_b, mult_b) = check_chain(&b, &db, 200, &mut errs, &mut key_home);
